@@ -187,6 +187,14 @@ Relit(p) == IF p.t = "lit" THEN Atm("lit", CASE p.v = "1" -> "2" [] p.v = "'a'" 
             ELSE IF p.t = "val" THEN Atm("val", IF p.v = "K.i1" THEN "K.sa" ELSE "K.i1")
             ELSE [p EXCEPT !.a = RelitS(p.a, 1)]
 
+\* a one-level sequence (kind 0) / mapping (1) / class (2) pattern with m sub-patterns, captures at child 1 (c1) and 2 (c2)
+MixedAlt(r, m, c1, c2, kind) ==
+  LET Kid(i) == IF (i = 1 /\ c1) \/ (i = 2 /\ c2) THEN Atm("cap", "") ELSE Atom(Mix(r, 50 + i), TRUE, FALSE)
+      kids == IF m = 1 THEN <<Kid(1)>> ELSE IF m = 2 THEN <<Kid(1), Kid(2)>> ELSE <<Kid(1), Kid(2), Kid(3)>>
+  IN IF kind = 0 THEN Pt("seq", "", kids, <<>>)
+     ELSE IF kind = 1 THEN Pt("map", "", kids, GenKeys(r, m, Mix(r, 5) % Len(KeyW), 1 + (Mix(r, 6) % 2), 1))
+     ELSE Pt("cls", Pick(Mix(r, 4), <<"P", "E", "P2", "P">>), IF m = 1 THEN kids ELSE <<kids[1], kids[2]>>, IF m = 1 THEN <<"">> ELSE <<"", "">>)
+
 Gen(d, r, nocap, refut) ==
   LET c == r % 13 IN
   IF d = 0 \/ c < 2 THEN Atom(Mix(r, 3), nocap, refut)
@@ -206,10 +214,16 @@ Gen(d, r, nocap, refut) ==
         sh == IF cl \in SelfCls THEN Pick(Mix(r, 5), ShapeSelf) ELSE Pick(Mix(r, 5), ShapeAny)
     IN Pt("cls", cl, Kids(d - 1, r, Len(sh), nocap, 1), sh)
   ELSE IF c < 12 \/ nocap THEN   \* or
-    IF nocap \/ Mix(r, 4) % 3 # 0
+    LET c4 == Mix(r, 4) % 4 IN
+    IF nocap \/ c4 <= 1
     THEN LET n == 2 + (Mix(r, 5) % 2) IN
          Pt("or", "", Alts(d - 1, r, n, refut, 1), <<>>)
-    ELSE LET b == Gen(d - 1, Mix(r, 6), FALSE, TRUE) IN Pt("or", "", <<b, Relit(b)>>, <<>>)
+    ELSE IF c4 = 2 THEN LET b == Gen(d - 1, Mix(r, 6), FALSE, TRUE) IN Pt("or", "", <<b, Relit(b)>>, <<>>)
+    ELSE LET k1 == Mix(r, 7) % 3                  \* alternatives of different kinds that capture at the same positions
+             k2 == (k1 + 1 + (Mix(r, 8) % 2)) % 3
+             cm == 1 + (Mix(r, 9) % 3)            \* captures at child 1, child 2, or both
+             m  == (IF cm = 1 THEN 1 ELSE 2) + (Mix(r, 10) % 2)
+         IN Pt("or", "", <<MixedAlt(Mix(r, 11), m, cm # 2, cm # 1, k1), MixedAlt(Mix(r, 12), m, cm # 2, cm # 1, k2)>>, <<>>)
   ELSE Pt("as", "", <<Gen(d - 1, Mix(r, 4), FALSE, refut)>>, <<>>)
 
 GenCase(r, last) == LET g == Mix(r, 1) % 3 = 0
